@@ -164,7 +164,7 @@ def gen_trace(seed, world, tier, mode=None, chunk=None):
     nmax = 6 if tier == "quick" else 10
     if mode is None:
         x = R.random()
-        mode = ("caps" if x < 0.58 else "strided" if x < 0.80 else "lu_fail" if x < 0.87
+        mode = ("caps" if x < 0.49 else "orth" if x < 0.54 else "abs_thr" if x < 0.58 else "strided" if x < 0.80 else "lu_fail" if x < 0.87
                 else "utri_zero" if x < 0.94 else "caps_big")
     steps = []
     tol = 10.0 ** -R.choice([2, 4, 6, 8, 10, 12])
@@ -204,6 +204,36 @@ def gen_trace(seed, world, tier, mode=None, chunk=None):
                 _solve_steps(steps, sysd, sc, tol_s, prec, None, storage, jitter, R)
                 if tol_s != tol:
                     _solve_steps(steps, sysd, 0, tol_s, prec, None, storage, jitter, R)
+    elif mode == "orth":
+        # directed at loss of orthogonality in the Arnoldi basis: the largest systems of the
+        # tier at the top of the conditioning range and the tightest tolerances, default cap
+        # (judged by the tight liveness bound and by per-cycle optimality where it applies)
+        n = R.randint(8, max(8, nmax + 2))
+        cnd = R.choice([1e3, 1e3, 3e2])
+        A = {"gen": "psvd", "m": n, "n": n, "seed": R.randrange(10 ** 6),
+             "sigma": [round_sig(v) for v in logspace_sigma(R, n, cnd)]}
+        sb = R.randrange(10 ** 6)
+        b = {"gen": "gauss", "m": n, "n": 1, "seed": sb} if R.random() < 0.5 else \
+            {"gen": "mul", "A": A, "x": {"gen": "gauss", "m": n, "n": 1, "seed": sb}}
+        sysd = {"n": n, "family": "generic", "bkind": "gauss", "A": A, "b": b}
+        _solve_steps(steps, sysd, R.choice([0, 0, 3, -3]), R.choice([1e-12] * 6 + [1e-10]), "none", None,
+                     storage, False, R)
+    elif mode == "abs_thr":
+        # directed at absolute thresholds inside the iteration: a system whose restart residual
+        # passes through every decade (c (I + eps G)), at the ends of the scale range and at the
+        # tightest tolerances, next to its unscaled twin
+        n = R.randint(4, nmax)
+        eps = R.choice([1e-1, 3e-2, 1e-2, 3e-3])
+        A = {"gen": "add", "a": {"gen": "cI", "n": n, "c": 1.0},
+             "b": {"gen": "scale", "c": eps, "of": {"gen": "gauss", "m": n, "n": n, "seed": R.randrange(10 ** 6)}}}
+        sb = R.randrange(10 ** 6)
+        b = {"gen": "gauss", "m": n, "n": 1, "seed": sb} if R.random() < 0.6 else \
+            {"gen": "mul", "A": A, "x": {"gen": "int", "m": n, "n": 1, "seed": sb}}
+        sysd = {"n": n, "family": "near_I", "bkind": "gauss", "A": A, "b": b}
+        tol_s = R.choice([1e-12, 1e-12, 1e-10])
+        prec = R.choice(["none", "none", "none", "left_lu"])
+        for sc in (R.choice([-6, -6, 6, -5]), 0):
+            _solve_steps(steps, sysd, sc, tol_s, prec, None, storage, False, R)
     elif mode == "lu_fail":
         sysd = gen_system(R, min(nmax, 6))
         _solve_steps(steps, sysd, 0, tol, "none", None, storage, False, R)
@@ -393,10 +423,11 @@ class Hooks(BaseHooks):
         # Unpreconditioned solves stop on the TRUE relative residual, so after at most n cycles it
         # is below tol itself (plus the rounding of the residual evaluation) - also for the
         # tightest tolerances: 4365 unchanged-tree solves at tol = 1e-12, cond <= 1e3, n <= 10,
-        # scales 1e-6..1e6 all converged with residual <= 8.3e-13.
+        # scales 1e-6..1e6 all converged with residual <= 8.3e-13 (the floor 4 eps cond is never
+        # needed there; the largest residual seen relative to eps cond is 0.37).
         if (not ("line" in fault)) and fault.get("utri_zero") is None and not fault.get("lu_fail") \
                 and cap is None and prec == "none" and meta["cond"] <= 1e3 and not bzero:
-            if not (true <= tol * (1 + 1e-6) + 10 * 2.3e-16 * meta["cond"]):
+            if not (true <= tol * (1 + 1e-6) + 4 * 2.3e-16 * meta["cond"]):
                 viol.append(V("liveness", i,
                               f"default cap, no preconditioner, cond {meta['cond']:.3g}, tol {tol:g}: true residual "
                               f"{true:.3e} after {its} cycles (n = {n}) is not below tol"))
